@@ -249,6 +249,66 @@ func RunQuorum(tier string) *Report {
 			})
 		}
 	}
+	// joint configurations with a large half (beyond the on-stack fast path), sparse acks
+	{
+		big8 := []uint64{1, 2, 3, 4, 5, 6, 7, 8}
+		big9 := append(append([]uint64(nil), big8...), 9)
+		smalls := [][]uint64{{11, 12, 13}, {2, 11, 12}, {11}, {1, 2, 3}, nil}
+		var pairs [][2][]uint64
+		for _, b := range [][]uint64{big8, big9} {
+			for _, sm := range smalls {
+				pairs = append(pairs, [2][]uint64{b, sm}, [2][]uint64{sm, b})
+			}
+		}
+		pairs = append(pairs, [2][]uint64{big8, {3, 4, 5, 6, 7, 8, 9, 10}})
+		if tier != "thorough" {
+			pairs = pairs[:12]
+		}
+		for _, pr := range pairs {
+			in, out := pr[0], pr[1]
+			unionMap := map[uint64]bool{}
+			var union []uint64
+			for _, id := range append(append([]uint64(nil), in...), out...) {
+				if !unionMap[id] {
+					unionMap[id] = true
+					union = append(union, id)
+				}
+			}
+			jc := quorum.JointConfig{setOf(in), setOf(out)}
+			if len(out) == 0 {
+				jc[1] = nil
+			}
+			if len(in) == 0 {
+				jc[0] = quorum.MajorityConfig{}
+			}
+			forEachVector(len(union), []int{missing, 0, 1}, func(v []int) {
+				acked := map[uint64]uint64{}
+				l := mapIdx{}
+				votes := map[uint64]bool{}
+				for i, x := range v {
+					if x != missing {
+						acked[union[i]] = uint64(x) * 5
+						l[union[i]] = quorum.Index(x * 5)
+						votes[union[i]] = x == 1
+					}
+				}
+				got := uint64(jc.CommittedIndex(l))
+				want := refmodel.JointCommittedIndex([2][]uint64{in, out}, acked)
+				r.Evaluations++
+				if want != 0 && want != math.MaxUint64 {
+					r.Nontrivial++
+				}
+				if got != want {
+					fail("JointConfig{%v,%v}.CommittedIndex(%v) = %d, reference %d", in, out, acked, got, want)
+				}
+				if g, w2 := int(jc.VoteResult(votes)), refmodel.JointVoteResult([2][]uint64{in, out}, votes); g != w2 {
+					fail("JointConfig{%v,%v}.VoteResult(%v) = %d, reference %d", in, out, votes, g, w2)
+				}
+				r.Evaluations++
+			})
+		}
+		r.Domains = append(r.Domains, fmt.Sprintf("joint with a large half: %d ordered pairs of an 8- or 9-voter set with small (overlapping, disjoint, empty) sets, all ack/vote vectors over {missing,0,5}", len(pairs)))
+	}
 	r.Domains = append(r.Domains, fmt.Sprintf("joint: all ordered pairs (incoming, outgoing) of subsets of {1..%d} incl. empty, all index vectors over {missing,0,1,2}, all vote vectors; tracker.Committed and TallyVotes over the same pairs", u))
 	r.WallS = time.Since(start).Seconds()
 	return r
